@@ -380,7 +380,7 @@ PROPS["C15"] = {
                    "startup-failure-timeout-or-cancellation-gives-status-1, non-CLI:returns-0-only-after-the-shutdown-event",
 }
 PROPS["C19"] = {
-    "functions": ["_context.inject.sync_wrapper", "_context.inject.async_wrapper",
+    "functions": ["_context.inject", "_context.inject.sync_wrapper", "_context.inject.async_wrapper",
                   "_context.inject.resolve_resources", "_context.inject.resolve_resources_async", "_context.inject.resolve_forward_refs",
                   "_context.Context.get_resource_nowait", "_context.Context.get_resource", "_context.current_context", "lemma:frame"],
     "clauses": lambda q, o: q.startswith("_context.inject") or q.startswith("lemma") or q.endswith("current_context") or any(
@@ -389,9 +389,10 @@ PROPS["C19"] = {
                               "A-TYPING get_type_hints / get_origin / get_args are side-effect free",
                               "lemma:frame (proved every run)"],
     "assumptions": CTX_ASSUME + [
-        "the decoration-time scan of the signature (inspect.signature, Parameter kinds, which wrapper is returned) is covered by the bounded harness only",
+        "inspect.signature(func).parameters is a mapping name -> Parameter created by that call; iterating it has no effect (AX-ITER-PURE); "
+        "A-WRAPS: the decorator functools.wraps(func) on the nested wrappers returns the decorated function itself (pyvc does not apply decorators of nested defs)",
         "which class an annotation denotes (typing introspection) is trusted; the marker's cls/optional fields are what resolve_forward_refs stored"],
-    "undecided": ["decoration-time rejections (positional-only / unannotated / uncalled resource) - bounded harness"],
+    "undecided": ["which class a string / PEP 604 annotation denotes (typing introspection, A-TYPING) - bounded harness"],
     "level": "other",
     "level_text": "Partly proved, partly bounded. Proved on the real closures: resolve_resources / resolve_resources_async resolve forward references first iff "
                   "not yet resolved, then perform for every marker of the decorated function exactly one lookup - get_resource_nowait resp. get_resource - in "
@@ -400,8 +401,10 @@ PROPS["C19"] = {
                   "(ResourceNotFound for a missing non-optional resource) propagates before the wrapper can call the function; resolve_forward_refs sets "
                   "the resolved flag only when resolution completed; sync_wrapper / async_wrapper resolve exactly once and first, enter the original "
                   "function at most once and only after a successful resolution, pass the caller's positional and keyword arguments unchanged plus the "
-                  "resolved dict, and return its result. The lookup contracts themselves are C03/C04. Bounded: decoration-time checks.",
-    "level_note": "Not counted as proved: the decoration-time signature scan (bounded harness: 2204/42072 scenarios).",
+                  "resolved dict, and return its result; inject() itself records exactly the parameters whose default is a resource() marker (under their "
+                  "names), raises TypeError exactly for positional-only or unannotated markers and for the bare `resource` function, and returns the async "
+                  "wrapper for coroutine functions, the sync wrapper otherwise, the function itself without markers. The lookup contracts themselves are C03/C04.",
+    "level_note": "Not counted as proved: annotation resolution by typing.get_type_hints (bounded harness: 2204/42072 scenarios).",
     "design_ref": "DESIGN.md section 5 (C19)",
     "technique": "contract-based deductive verification of inject()'s resolver closures (pyvc + z3) over the verified lookup contracts + bounded differential harness",
     "explanation": "lookup:in-the-context-current-at-call-time, lookup:annotated-type-and-marker-name, lookup:optional-iff-the-marker-is-optional, "
